@@ -12,7 +12,7 @@ From Gen Require Import M_base M_Angle.
 From Proofs.C03 Require Import C03_defs C03_reduce C03_construct C03_forms C03_dmsi C03_dms C03_dms_int C03_ops.
 From Proofs.C03 Require C03_grid.
 From PyLib Require B64 B64Verified.
-From Proofs.C03 Require C03_reduce_b64 C03_b64.
+From Proofs.C03 Require C03_reduce_b64 C03_b64 C03_ra_b64.
 Import ListNotations.
 Open Scope R_scope.
 
@@ -306,6 +306,18 @@ Theorem C03_to_positive_b64 : forall d t0 : PrimFloat.float, B64Verified.fin d -
                 Rabs (B64Verified.RV r - B64Verified.RV d) <= Raux.bpow Zaux.radix2 (-45))).
 Proof. exact C03_b64.to_positive_b64. Qed.
 
+(* binary64 instance, EVERY finite float x (hours): set_ra(x) stores red360 of the ONE rounded product
+   RN(red360(x) * 15): both reductions are exact, the only rounding is the multiplication by 15, whose
+   error is at most 2^-41 degree (4.5e-13) *)
+Theorem C03_set_ra_b64 : forall x d0 t0 : PrimFloat.float, B64Verified.fin x ->
+  exists r, Angle_set_ra B64.B0 (C03_b64.angb d0 t0) (VTuple [VFloat x]) = VTuple [C03_b64.angb r t0; VNone] /\
+            B64Verified.fin r /\
+            B64Verified.RV r = red360 (B64Verified.RN (red360 (B64Verified.RV x) * 15)) /\
+            Rabs (B64Verified.RV r) < 360 /\
+            Rabs (B64Verified.RN (red360 (B64Verified.RV x) * 15) - red360 (B64Verified.RV x) * 15)
+              <= Raux.bpow Zaux.radix2 (-41).
+Proof. exact C03_ra_b64.set_ra_b64. Qed.
+
 Redirect "C03_reduce_deg_ideal.assumptions" Print Assumptions C03_reduce_deg_ideal.
 Redirect "C03_reduction_spec.assumptions" Print Assumptions C03_reduction_spec.
 Redirect "C03_construct_ideal.assumptions" Print Assumptions C03_construct_ideal.
@@ -320,3 +332,4 @@ Redirect "C03_construct_b64.assumptions" Print Assumptions C03_construct_b64.
 Redirect "C03_to_positive_b64.assumptions" Print Assumptions C03_to_positive_b64.
 Redirect "C03_sexagesimal_canonical_ideal.assumptions" Print Assumptions C03_sexagesimal_canonical_ideal.
 Redirect "C03_operators_more_ideal.assumptions" Print Assumptions C03_operators_more_ideal.
+Redirect "C03_set_ra_b64.assumptions" Print Assumptions C03_set_ra_b64.
